@@ -85,10 +85,12 @@ def export_format(subtree, **params):
     """
     if subtree.data['edge'] == None:
         subtree.data['edge'] = '--'
+    if subtree.data['morph'] == None:
+        subtree.data['morph'] = "--"
+    if subtree.data['lemma'] == None:
+        subtree.data['lemma'] = trees.DEFAULT_LEMMA
     label = trees.get_label(subtree, **params)
     if not 'export_four' in params:
-        if subtree.data['morph'] == None:
-            subtree.data['morph'] = "--"
         return u"%s%s%s\t%s%s%s\t%d\n" \
             % (subtree.data['word'],
                export_tabs(len(subtree.data['word'])),
@@ -283,6 +285,10 @@ def tigerxml(tree, stream, **params):
     stream.write(u"  <terminals>\n")
     for terminal in trees.terminals(tree):
         stream.write(u"    <t id=\"%d\" " % terminal.data['num'])
+        if terminal.data['lemma'] is None:
+            terminal.data['lemma'] = trees.DEFAULT_LEMMA
+        if terminal.data['morph'] is None:
+            terminal.data['morph'] = trees.DEFAULT_MORPH
         for field in ['word', 'lemma', 'label', 'morph']:
             terminal.data[field] = quoteattr(terminal.data[field])
         stream.write(u"%s=%s " % ('word', terminal.data['word']))
@@ -298,6 +304,8 @@ def tigerxml(tree, stream, **params):
                          % (subtree.data['num'],
                             quoteattr(subtree.data['label'])))
             for child in trees.children(subtree):
+                if child.data['edge'] is None:
+                    child.data['edge'] = trees.DEFAULT_EDGE
                 stream.write(u"      <edge label=%s idref=\"%d\" />\n"
                              % (quoteattr(child.data['edge']),
                                 child.data['num']))
